@@ -91,7 +91,7 @@ def run_unit(name, spec, repo, workdir, tier="quick", seed=0, threads=4, timeout
     if tier == "thorough" and spec.get("thorough_rlimit"):
         rlimit = spec["thorough_rlimit"]
     cmd = ["verus", gen, "--rlimit", str(rlimit), "--output-json", "--time-expanded", "--num-threads", str(threads),
-           "--multiple-errors", "20"]
+           "--multiple-errors", "20", "--triggers-mode", "silent"]
     if seed and tier == "thorough":
         cmd += ["--smt-option", "smt.random_seed=%d" % (seed % 1000)]
     cmd += spec.get("verus_args", [])
